@@ -660,6 +660,6 @@ def _extra(ctx):
     from ..engines import keykind as _kk
     _kk.check_function(ctx, "AbsoluteSequence.get_message_pairings", "KEY", expect_min=2)
     from ..engines.pairing import check_pairings
-    ctx.floor("pairing-table cases decided", check_pairings(ctx), 14)
+    ctx.floor("pairing-table cases decided", check_pairings(ctx), 16)
     from ..engines.structure import interleave_rule
     interleave_rule(ctx)
